@@ -339,7 +339,13 @@ func (fr *frame) runFrame() {
 			if fr.p.steps > fr.p.P.cfg.MaxSteps {
 				fr.p.finish(&Outcome{Kind: "budget", Msg: "instruction budget exceeded"})
 			}
-			switch fr.visit(in) {
+			var cont continuation
+			if fr.tolerant {
+				cont = fr.visitTolerant(in)
+			} else {
+				cont = fr.visit(in)
+			}
+			switch cont {
 			case kReturn:
 				return
 			case kJump:
@@ -641,6 +647,37 @@ func (fr *frame) visit(instr ssa.Instruction) continuation {
 		panic(unsupported(fmt.Sprintf("instruction %T", instr)))
 	}
 	return kNext
+}
+
+// visitTolerant executes one instruction of a package initialiser; a failing
+// initialiser expression (e.g. one that needs a curve table the engine does not
+// build) yields the zero value and initialisation continues with the next
+// global instead of abandoning the whole package.
+func (fr *frame) visitTolerant(in ssa.Instruction) (cont continuation) {
+	defer func() {
+		if r := recover(); r != nil {
+			switch e := r.(type) {
+			case *goPanic:
+				fr.p.warn("init of " + fr.fn.Pkg.Pkg.Path() + ": initialiser panicked (" + e.String() + "), zero value used")
+			case unsupportedErr:
+				fr.p.warn("init of " + fr.fn.Pkg.Pkg.Path() + ": initialiser unsupported (" + e.msg + "), zero value used")
+			default:
+				panic(r)
+			}
+			if v, ok := in.(ssa.Value); ok {
+				func() {
+					defer func() { recover() }()
+					fr.set(v, zero(v.Type()))
+				}()
+			}
+			cont = kNext
+			if _, isIf := in.(*ssa.If); isIf {
+				fr.prev, fr.block = fr.block, fr.block.Succs[1]
+				cont = kJump
+			}
+		}
+	}()
+	return fr.visit(in)
 }
 
 func fieldName(t types.Type, i int) string {
